@@ -27,6 +27,7 @@ class Stmt:
     line: int
     alternatives: list  # acceptable importee names (>=1)
     note: str = ""
+    via_prefix: bool = False  # absolute name written relative to module_path's parent directory
 
 
 @dataclass
@@ -113,10 +114,12 @@ def model(root_path, module_path, exclusions=(), regex_exclusions=()) -> Model:
             if isinstance(node, ast.Import):
                 for al in node.names:
                     t = resolutions(al.name)[0]
-                    m.statements.append(Stmt(me, "import" + (" as" if al.asname else ""), node.lineno, [t]))
+                    m.statements.append(Stmt(me, "import" + (" as" if al.asname else ""), node.lineno, [t], via_prefix=t != al.name))
             elif isinstance(node, ast.ImportFrom):
+                via = False
                 if node.level == 0:
                     base = resolutions(node.module)[0]
+                    via = base != node.module
                     form = "from"
                 else:
                     anc = ancestors(me)
@@ -140,7 +143,7 @@ def model(root_path, module_path, exclusions=(), regex_exclusions=()) -> Model:
                         alts, note = [base, cand], "outside-module-path"
                     else:
                         alts, note = [base], "name"
-                    m.statements.append(Stmt(me, form + (":" + note if note != "name" else ""), node.lineno, alts, note))
+                    m.statements.append(Stmt(me, form + (":" + note if note != "name" else ""), node.lineno, alts, note, via))
     return m
 
 
@@ -209,7 +212,7 @@ def compare(m: Model, ex: Expect, nodes: set, imps: set, exclude_external=True):
     int_edges = {(a, b) for a, b in imps if a in got_internal and b in got_internal}
     for s, edges in ex.required_groups:
         if not (edges & int_edges):
-            out.append(("edge-missing", s.form, f"{s.importer}:{s.line} ({s.form}) has no import edge to {sorted(e[1] for e in edges)}", {"importer": s.importer, "line": s.line, "form": s.form, "expected": sorted(edges)}))
+            out.append(("edge-missing", s.form, f"{s.importer}:{s.line} ({s.form}) has no import edge to {sorted(e[1] for e in edges)}", {"importer": s.importer, "line": s.line, "form": s.form, "expected": sorted(edges), "via_prefix": s.via_prefix}))
     for e in sorted(int_edges - ex.allowed_edges):
         if is_ancestor(e[1], e[0]):
             continue  # import of an own ancestor package: outside the claim
